@@ -190,7 +190,9 @@ def chunks(tier, seed):
     for k in hs:
         out.append({"kind": "hashseed", "k": k})
     out.append({"kind": "setorder"})
-    out.append({"kind": "writemon", "tier": tier})
+    for i, sk in enumerate(sched_corpus("quick")):
+        if tier == "thorough" or i % 6 == 0:  # the line-by-line write monitor is evidence (write set), not an oracle
+            out.append({"kind": "writemon", "tier": tier, "index": i})
     return out
 
 
@@ -203,6 +205,7 @@ def sched_corpus(tier):
             res.append({"key": ["qb:" + d, s, None], "ops": ["i:" + d, "i:" + d], "bound": 1})
             res.append({"key": ["qb:" + d, s, None], "ops": ["p:" + d, "i:mysql"], "bound": 1})
         res.append({"key": ["setop:" + d, "two", None], "ops": ["i:" + d, "p:" + d], "bound": 1})
+        res.append({"key": ["setop:" + d, "three_ord", None], "ops": ["i:" + d, "p:" + d], "bound": 1})
         if tier == "thorough":
             for s in big:
                 res.append({"key": ["qb:" + d, s, None], "ops": ["i:" + d, "p:" + d], "bound": 1})
@@ -236,6 +239,44 @@ def _tname(o):
     return type(o).__qualname__
 
 
+import dis as _dis
+
+_STORES = {}
+
+
+def _code_stores(code):
+    """does this code object store to an attribute / item / call a mutating container method?"""
+    k = code
+    if k not in _STORES:
+        ops = {i.opname for i in _dis.get_instructions(code)}
+        names = set(code.co_names)
+        # (mutating method calls on long-lived containers show up in the before/after fingerprints; what those cannot
+        # see is a store that is undone before the render returns, and such a store is an attribute/item assignment)
+        _STORES[k] = bool(ops & {"STORE_ATTR", "STORE_SUBSCR", "DELETE_ATTR", "DELETE_SUBSCR"})
+    return _STORES[k]
+
+
+def may_write(o, rname):
+    """library functions executed by this render op that contain stores (transient writes restored before the
+    render returns are invisible to before/after fingerprints; this finds the candidates)"""
+    lib = sched._LIB
+    hits = set()
+
+    def prof(frame, event, arg):
+        if event == "call":
+            c = frame.f_code
+            if c.co_filename.startswith(lib) and c.co_name not in ("__init__", "create_param", "copy", "__copy__", "as_", "_copy") and _code_stores(c):
+                hits.add(c.co_qualname)
+
+    sys.setprofile(prof)
+    try:
+        ROPS[rname](o)
+    finally:
+        sys.setprofile(None)
+    return hits
+
+
+_SEEN_WRITERS = {}
 _DYN_SCHED = 0
 DYN_SCHED_CAP = 2  # per worker chunk: schedule explorations triggered by a non-empty write set
 
@@ -294,6 +335,16 @@ def run_hist(case, res):
                 res.extra["unobservable_object_writes"] = res.extra.get("unobservable_object_writes", 0) + 1
                 res.extra.setdefault("object_write_sites", set()).add("%s|%s|%s" % (_tname(o), opclass(r), ",".join(ch)))
             f0 = deepfp_str(o)
+    # transient writes: a render function that stores into some object (other than via the Parameterizer / a fresh
+    # context copy).  Such objects are handed to the scheduler below even if nothing differs afterwards.
+    d_own = key[0].split(":")[1] if key[0].startswith(("qb:", "setop:")) else "generic"
+    writers = may_write(build(key), "i:" + d_own)
+    if writers:
+        res.extra.setdefault("render_functions_with_stores", set()).update(writers)
+        wkey = (key[0].split(":")[0], tuple(sorted(writers)))
+        _SEEN_WRITERS[wkey] = _SEEN_WRITERS.get(wkey, 0) + 1
+        if _SEEN_WRITERS[wkey] <= 2:  # per worker process: two objects per distinct set of storing render functions
+            wrote_object = True
     wrote_global = globals_fp() != g0
     if wrote_global:
         res.extra["global_writes"] = res.extra.get("global_writes", 0) + 1
@@ -519,7 +570,7 @@ def run_writemon(case, res):
 
     lib = sched._LIB
     total_points = 0
-    for sk in sched_corpus("quick"):
+    for sk in [sched_corpus("quick")[case["index"]]]:
         key = sk["key"]
         for r in sorted(set(sk["ops"])):
             o = build(key)
